@@ -37,6 +37,7 @@ type Stats struct {
 	Time       time.Duration
 	MaxQuery   time.Duration
 	Fallbacks  int
+	QuickUnknown int
 	Errors     []string
 	CrossOK    int
 	CrossDiffs []string
@@ -52,6 +53,7 @@ func (s *Stats) Merge(o *Stats) {
 		s.MaxQuery = o.MaxQuery
 	}
 	s.Fallbacks += o.Fallbacks
+	s.QuickUnknown += o.QuickUnknown
 	s.Errors = append(s.Errors, o.Errors...)
 	s.CrossOK += o.CrossOK
 	s.CrossDiffs = append(s.CrossDiffs, o.CrossDiffs...)
@@ -79,6 +81,7 @@ type Solver struct {
 	ArithHint bool // try cvc5 --solve-bv-as-int first on fallback
 	Cross     bool // cross-check every query with cvc5 one-shot
 	dead      bool
+	curTimeout, lastTimeout int
 }
 
 func NewSolver(ctx *Ctx, timeoutMs int) (*Solver, error) {
@@ -113,6 +116,7 @@ func (s *Solver) start() error {
 	s.declUF = map[string]bool{}
 	s.stack = nil
 	s.dead = false
+	s.lastTimeout = 0
 	fmt.Fprintln(s.in, "(set-option :print-success false)")
 	fmt.Fprintln(s.in, "(set-option :produce-models true)")
 	fmt.Fprintln(s.in, "(set-option :global-declarations true)")
@@ -208,12 +212,23 @@ func (s *Solver) syncStack(w *bytes.Buffer, pc []*Term) {
 // Check decides pc ∧ extra. If wantModel and the answer is sat, the values of
 // `vars` are returned.
 func (s *Solver) Check(pc []*Term, extra *Term, vars []*Term, wantModel bool) (Result, map[string]uint64) {
+	return s.CheckT(pc, extra, vars, wantModel, 0)
+}
+
+// CheckT: quickMs > 0 means a cheap feasibility probe: z3 only, with that timeout, no fall-back.
+func (s *Solver) CheckT(pc []*Term, extra *Term, vars []*Term, wantModel bool, quickMs int) (Result, map[string]uint64) {
 	if extra.IsFalse() {
 		return Unsat, nil
 	}
 	t0 := time.Now()
+	s.curTimeout = s.TimeoutMs
+	if quickMs > 0 {
+		s.curTimeout = quickMs
+	}
 	res, model, who := s.checkZ3(pc, extra, vars, wantModel)
-	if res == Unknown {
+	if res == Unknown && quickMs > 0 {
+		s.Stats.QuickUnknown++
+	} else if res == Unknown {
 		s.Stats.Fallbacks++
 		r2, m2, w2 := s.fallback(pc, extra, vars, wantModel)
 		if r2 != Unknown {
@@ -254,6 +269,10 @@ func (s *Solver) checkZ3(pc []*Term, extra *Term, vars []*Term, wantModel bool) 
 	var w bytes.Buffer
 	s.syncStack(&w, pc)
 	s.collectDefs(&w, extra, s.defined, s.declUF)
+	if s.curTimeout != s.lastTimeout {
+		fmt.Fprintf(&w, "(set-option :timeout %d)\n", s.curTimeout)
+		s.lastTimeout = s.curTimeout
+	}
 	fmt.Fprintf(&w, "(push 1)\n(assert %s)\n(check-sat)\n", extra.ref())
 	if _, err := s.in.Write(w.Bytes()); err != nil {
 		s.dead = true
